@@ -57,8 +57,8 @@ static int occurrences(const MoveList& ml, int from, int to, int prom) {
     return n;
 }
 
-alignas(16) static unsigned char mlmem[sizeof(MoveList)];
-static MoveList& freshList() { MoveList& ml = *reinterpret_cast<MoveList*>(mlmem); ml.size = 0; return ml; }
+static RawBox<MoveList> mlBox;
+static MoveList& freshList() { MoveList& ml = mlBox.obj; ml.size = 0; return ml; }
 
 template <bool wtm> static void runGen(int which, const Position& pos, MoveList& ml) {
     switch (which) {
